@@ -9,6 +9,9 @@ use serde::{Deserialize, Serialize};
 mod ext_lat;
 mod hours;
 
+#[cfg(feature = "verif")]
+pub mod verif_hooks;
+
 use std::{
     collections::{BTreeMap, HashMap},
     fmt::Display,
@@ -138,6 +141,8 @@ pub fn prayer_times_dt_rng_block(
     } else {
         1
     };
+    #[cfg(feature = "verif")]
+    let avail_pll = verif_hooks::override_pll(avail_pll);
     let no_parallelism = date_range.num_days() / avail_pll < min_days_for_pll;
 
     // No parallelism.
@@ -151,8 +156,12 @@ pub fn prayer_times_dt_rng_block(
             // Spawn thread to combine prayer times for each date range.
             let handle = s.spawn(move || {
                 let mut times = BTreeMap::new();
+                #[cfg(feature = "verif")]
+                verif_hooks::perturb(0);
                 while let Ok(mut partial_times) = rx.recv() {
                     times.append(&mut partial_times);
+                    #[cfg(feature = "verif")]
+                    verif_hooks::perturb(1);
                 }
                 times
             });
@@ -163,11 +172,17 @@ pub fn prayer_times_dt_rng_block(
                 let tx = tx.clone();
                 s.spawn(move || {
                     let partial_times = prayer_times_dt_rng(params, location, &date_range);
+                    #[cfg(feature = "verif")]
+                    verif_hooks::perturb(2);
                     tx.send(partial_times).unwrap();
                 });
+                #[cfg(feature = "verif")]
+                verif_hooks::perturb(3);
             }
 
             // Close channel to terminate blocking channel receive loop.
+            #[cfg(feature = "verif")]
+            verif_hooks::perturb(4);
             drop(tx);
 
             handle.join().unwrap()
